@@ -211,6 +211,12 @@ def synthetic():
 
 
 MUTANTS = [
+    Mutant('static-channel-shortcut-by-default-tolerance', FG, 'JakesSampleGenerator.generate_more_samples',
+           [('regex', r'(\n    t = self\._generate_time_samples\(num_samples\))', r'\n    if np.isclose(self._Fd * self._Ts, 0.0):\n        self._samples = np.zeros(1)\n        return\1')],
+           r'C14\.h:JakesSampleGenerator\.generate_more_samples:tolerance-path'),
+    Mutant('similar-generator-is-a-copy-of-the-running-one', FG, 'JakesSampleGenerator.get_similar_fading_generator',
+           [('replace', 'return JakesSampleGenerator(self._Fd, self._Ts, self._L, self._shape)', 'g = copy.copy(self)\n    g._set_phi_and_psi_according_to_shape()\n    return g')],
+           r'C14\.i:JakesSampleGenerator\.get_similar_fading_generator:copy-of-self'),
     Mutant('samples-generated-in-whole-blocks-only', FG, 'JakesSampleGenerator.generate_more_samples',
            [('regex', r'h = math\.sqrt[^\n]*\n', 'n = t.shape[-1]\n    blk = 2 ** 16\n    h = np.empty(self._phi_l.shape[1:-1] + (n,), dtype=complex)\n    for b in range(max(n // blk, 1)):\n        h[..., b * blk:(b + 1) * blk] = math.sqrt(1.0 / self.L) * np.sum(np.exp(1j * (2 * np.pi * self.Fd * np.cos(self._phi_l) * t[..., b * blk:(b + 1) * blk] + self._psi_l)), axis=0)\n')],
            r'C14\.g:JakesSampleGenerator\.generate_more_samples:floor-blocks'),
